@@ -19,7 +19,9 @@ META = {
                   "expected records.",
     "trusted": ["LEB128 readers under their C03 contracts (executed, not stubbed)", "struct/stream models"],
     "explanation": "parsers proved on symbolic bytes; determineException bounded (enumerated try tables).",
-    "assumptions": ["ULEB/SLEB fields are given as one-byte encodings in the handler units (multi-byte forms are C03's obligation)"],
+    "assumptions": ["ULEB/SLEB fields are given as one-byte encodings in the handler units (multi-byte forms are C03's obligation)",
+                    "the statement is read as: the set of ranges with their ordered handlers; the order in which determineException lists "
+                    "the ranges (grouped by handler offset, so permuted when non-adjacent try items share a handler) is not pinned"],
 }
 
 
